@@ -273,10 +273,11 @@ def streams_whole(streams: Dict[int, bytes], partial_ok: set, timecode: bool) ->
 
 
 def run_script(script: List[Dict[str, Any]], *, timecode: bool = False, log_level: int = 100, timing: bool = True,
-               order: str = "fwd") -> Dict[str, Any]:
+               order: str = "fwd", debug: bool = False) -> Dict[str, Any]:
     """Run the real manager on the script.  Returns protocol lines (inputs + observation) and extras."""
     rounds, frames = to_fake_rounds(script, timecode)
-    mgr_kw = dict(timecode=timecode, log_level=log_level, send_msg_timing=timing, order=order)
+    # `debug` is the constructor's debug flag (address reuse on the listening socket): no effect on the protocol
+    mgr_kw = dict(timecode=timecode, log_level=log_level, send_msg_timing=timing, order=order, debug=debug)
     # the manager's own table entry reports os.getpid(): pin it
     import pyrtma.manager as M
     _orig_getpid = M.os.getpid
